@@ -132,6 +132,8 @@ class Client:
                 data = self.sock.recv(size)
             except (socket.timeout, ssl.SSLError):
                 raise Error("Failed to read %d bytes from the server" % size)
+            except OSError as e:
+                raise Error("Connection to server lost: %s" % str(e))
             if not len(data):
                 raise Error("Connection closed by server")
             buf += data
@@ -171,6 +173,8 @@ class Client:
                 self.__read_buffer += nval
             except (socket.timeout, ssl.SSLError):
                 raise Error("Failed to read data from the server")
+            except OSError as e:
+                raise Error("Connection to server lost: %s" % str(e))
 
         if len(ret):
             m = self.__size_expr.match(ret)
@@ -320,10 +324,13 @@ class Client:
         if args:
             tosend += b" " + b" ".join(self.__prepare_args(args))
         self.__dprint(b"Command: " + tosend)
-        self.sock.sendall(tosend + CRLF)
-        if extralines:
-            for l in extralines:
-                self.sock.sendall(l + CRLF)
+        try:
+            self.sock.sendall(tosend + CRLF)
+            if extralines:
+                for l in extralines:
+                    self.sock.sendall(l + CRLF)
+        except OSError as e:
+            raise Error("Failed to send data to the server: %s" % str(e))
         code, data, content = self.__read_response(nblines)
 
         if isinstance(code, bytes):
